@@ -178,7 +178,8 @@ def one(spec: Dict[str, Any]) -> Dict[str, Any]:
         return rec
     plan = export_plan(sess, uni)
     rec["plan"] = {k: v for k, v in plan.items() if k != "_ren"}
-    o = run_observed(sess)
+    o = run_observed(sess, ren=plan["_ren"])
+    plan = routing.with_run_orders(plan, o.get("orders"))
     rec["status"] = o["status"]
     rec["exc"] = str(o.get("exc"))[-200:] if o["status"] == "raised" else None
     obs: List[Tuple[int, List[Optional[int]]]] = []
